@@ -13,6 +13,15 @@ use raqote::BlendMode;
 
 pub struct C05;
 
+/// in the mixed exploration C05 owns the clauses that speak about the clip
+fn owns_clip(v: &StepViolation) -> bool {
+    match v.kind {
+        Kind::OutsideChanged => v.clause.contains("clip"),
+        Kind::WrongValue => v.detail.contains("clip coverage Some"),
+        _ => false,
+    }
+}
+
 fn stack_alphabet(w: i32, h: i32) -> Vec<Op> {
     let (wf, hf) = (w as f32, h as f32);
     vec![
@@ -240,12 +249,16 @@ impl Check for C05 {
                 rec(run, s, l, w, h, &alpha, &pr, &mut hist, depth);
             });
         }
+        super::mixed::explore_mixed(run, "C05", owns_clip, if q { 4 } else { 5 }, false);
     }
 
     fn replay(&self, case: &str) -> Result<Option<Violation>, String> {
         let s = parse_scene(case)?;
         // the clip history is the longest prefix of stack ops / set_transform
         let nhist = s.ops.iter().position(|o| !matches!(o, Op::PushClip(_) | Op::PushClipRect(..) | Op::PopClip | Op::SetTransform(_))).unwrap_or(s.ops.len());
-        Ok(eval(s.w, s.h, &s.dst, &s.ops, nhist).err())
+        if let Err(v) = eval(s.w, s.h, &s.dst, &s.ops, nhist) {
+            return Ok(Some(v));
+        }
+        Ok(super::mixed::eval_mixed(&s, &owns_clip, false).err())
     }
 }
